@@ -1,6 +1,7 @@
 #!/usr/bin/env bash
 # preview.sh <patch> <check ids...> : apply a patch to /repo, run the quick checks, revert (evidence preserved)
 P=$1; shift
+exec 8>/var/tmp/verif-repo.lock; flock 8
 EVBAK=$(mktemp -d /var/tmp/evidence.bak.XXXXXX); cp -a /verif/evidence/. "$EVBAK/"
 git -C /repo apply "$P" || { echo "patch does not apply"; exit 1; }
 for c in "$@"; do
